@@ -198,6 +198,23 @@ namespace Hist
 inductive DKind | past | future | zero
   deriving DecidableEq, Repr
 
+/-- what a handler may return besides nil, a plain error and a bare `stream.Error`: values that
+ARE or merely WRAP the sentinels `Serve` and `sendError` look for -/
+inductive HErr
+  /-- `io.EOF` itself (`handleInputStream` turns it into `io.ErrUnexpectedEOF`) -/
+  | eof
+  /-- `fmt.Errorf("…: %w", io.EOF)` -/
+  | wrapEof
+  /-- `fmt.Errorf("…: %w", io.ErrUnexpectedEOF)` -/
+  | wrapUnexpected
+  /-- `errors.Join(err, io.EOF)` -/
+  | joinEof
+  /-- `fmt.Errorf("…: %w", stream.Conflict)` -/
+  | wrapStream
+  /-- `fmt.Errorf("…: %w", stanza.Error{…})` -/
+  | wrapStanza
+  deriving DecidableEq, Repr
+
 inductive Op
   /-- `Session.Close` -/
   | close
@@ -214,6 +231,8 @@ inductive Op
   | handlerErr
   /-- peer sends a stanza, the handler returns a `stream.Error` -/
   | handlerStreamErr
+  /-- peer sends a stanza, the handler returns one of the values of `HErr` -/
+  | handlerFails (k : HErr)
   /-- peer sends `<stream:error/>` -/
   | peerStreamErr
   /-- peer sends `</stream:stream>` -/
@@ -240,8 +259,23 @@ inductive Res
 /-- what `Serve` returned -/
 inductive Ret
   | running | notStarted
-  | nil_ | handlerErr | streamErr | peerStreamErr | garbage | deadline | closedOut
+  | nil_ | handlerErr | streamErr | peerStreamErr | garbage | deadline | closedOut | unexpectedEof
   deriving DecidableEq, Repr
+
+/-- what `Serve` returns when the handler returned `k`: the handler's own error value
+(`handlerErr`; a wrapped stream error is that stream error), `io.ErrUnexpectedEOF` for a bare
+`io.EOF` — never nil: `Serve` compares with `==`, only the session's own reader yields the
+identical `io.EOF` and only when the peer closed -/
+def HErr.ret : HErr → Ret
+  | .eof => .unexpectedEof
+  | .wrapStream => .streamErr
+  | _ => .handlerErr
+
+/-- NOT the code: `Serve` classifying with `errors.Is(err, io.EOF)` -/
+def HErr.retIs : HErr → Ret
+  | .wrapEof => .nil_
+  | .joinEof => .nil_
+  | k => k.ret
 
 inductive Item | el | close
   deriving DecidableEq, Repr
@@ -296,6 +330,7 @@ def step (s : St) : Op → St × Res
       else ({ s with wire := s.wire ++ [.el] }, .ok)
     | .handlerErr => (serveReturns s .handlerErr, .ok)
     | .handlerStreamErr => (serveReturns s .streamErr, .ok)
+    | .handlerFails k => (serveReturns s k.ret, .ok)
     | .peerStreamErr => (serveReturns s .peerStreamErr, .ok)
     | .peerClose => (serveReturns s .nil_, .ok)
     | .peerGarbage => (serveReturns s .garbage, .ok)
